@@ -16,6 +16,7 @@ mod c19;
 mod c20;
 mod c12;
 mod c15;
+mod c16;
 
 pub use util::*;
 
@@ -40,6 +41,7 @@ fn props() -> Vec<Prop> {
         Prop { id: "C20", run: c20::run, gen: c20::gen },
         Prop { id: "C12", run: c12::run, gen: c12::gen },
         Prop { id: "C15", run: c15::run, gen: c15::gen },
+        Prop { id: "C16", run: c16::run, gen: c16::gen },
     ]
 }
 
